@@ -154,8 +154,16 @@ def build(case):
     driver = []
     state_flags = [False] * 3
     tracked = 0
-    for when in change_times:
+    # some helper tasks never get to run: they are to start late and the driver cancels them
+    # before that - their `done` turns true at the time of the cancel
+    prestart = {name: when for name, when in zip(tasks, task_times) if rng.random() < 0.3}
+    agenda = [(when, 'change', None) for when in change_times]
+    agenda += [(when, 'cancel', name) for name, when in prestart.items()]
+    for when, what, name in sorted(agenda):
         driver.append({'op': 'wait', 'n': {'k': 'ge', 't': when}, 'id': ids('d')})
+        if what == 'cancel':
+            driver.append({'op': 'cancel', 'task': name, 'yield': False, 'id': ids('d')})
+            continue
         if rng.random() < 0.65:
             flag = rng.randrange(3)
             value = not state_flags[flag] if rng.random() < 0.8 else state_flags[flag]
@@ -172,6 +180,8 @@ def build(case):
         for name, when in zip(tasks, task_times):
             children.append({'name': name, 'volatile': False, 'steps': [
                 {'op': 'wait', 'n': {'k': 'delay', 'd': when}, 'id': ids('h')}]})
+            if name in prestart:
+                children[-1]['at'] = 50         # never reached: cancelled before its start
             changes.append({'t': when, 'what': 'done', 'task': name})
         roots.append({'name': 'helpers', 'steps': [
             {'op': 'scope', 'id': ids('hs'), 'n': None, 'catch': False, 'children': children,
@@ -212,11 +222,33 @@ def build(case):
             steps.append(gen_block(rng, ids, tasks, 1, shared))
             steps += waits(rng, ids, 1)
         roots.append({'name': 'subject%d' % number, 'steps': steps})
+    if rng.random() < 0.12:
+        # a task that is cancelled before its first activation, by the body of a block that
+        # waits for it: spawned by `spawner` in the turn before the subject enters
+        # until(task.done) and cancels it - the block ends in that same time step
+        unused = [when for when in GRID if when not in times]
+        if unused:
+            when = rng.choice(unused)
+            roots.insert(0, {'name': 'spawner', 'steps': [
+                {'op': 'wait', 'n': {'k': 'ge', 't': when}, 'id': ids('d')},
+                {'op': 'scope', 'id': ids('ps'), 'n': None, 'catch': False, 'children': [
+                    {'name': 'TP', 'volatile': False, 'steps': [
+                        {'op': 'wait', 'n': {'k': 'delay', 'd': 1}, 'id': ids('h')}]}],
+                 'body': [{'op': 'wait', 'n': {'k': 'delay', 'd': 8}, 'id': ids('d')}]}]})
+            changes.append({'t': when, 'what': 'done', 'task': 'TP'})
+            roots.append({'name': 'subjectP', 'steps': [
+                {'op': 'wait', 'n': {'k': 'ge', 't': when}, 'id': ids('w')},
+                {'op': 'scope', 'id': ids('b'), 'n': {'k': 'done', 'task': 'TP', 'neg': False},
+                 'catch': False, 'children': [], 'body': [
+                     {'op': 'cancel', 'task': 'TP', 'yield': False, 'id': ids('x')},
+                     {'op': 'wait', 'n': {'k': 'delay', 'd': 3}, 'id': ids('w')}]},
+                {'op': 'wait', 'n': {'k': 'delay', 'd': 1}, 'id': ids('w')}]})
     # a negative start time puts date 0 - and every other date of the grid - into the future
     start = rng.choice([0, 0, 0, -3, -0.5])
     if start and tasks:
         # helpers finish at their (absolute) date: keeps one change per virtual time
-        for child in roots[0]['steps'][0]['children']:
+        helpers = next(root for root in roots if root['name'] == 'helpers')
+        for child in helpers['steps'][0]['children']:
             wait = child['steps'][0]
             wait['n'] = {'k': 'ge', 't': wait['n']['d']}
     program = {'objects': objects, 'roots': roots, 'start': start, 'till': None}
@@ -365,8 +397,36 @@ def judge_until(case, program, changes):
                     else:
                         result.append(ev)
                 return result
+
+            def coarse(result, loose):
+                # Inside a time step in which a notification strikes a block of the owner, the
+                # point at which the body is abandoned (which of several same-time waits it
+                # still completes, whether an inner block with the same deadline ends first) is
+                # a matter of order inside the time step: of such a time step only the set of
+                # blocks that were left is compared (each block is judged on its own anyway)
+                merged = []
+                done = set()
+                for ev in result:
+                    if ev[0] in loose:
+                        if ev[0] not in done:
+                            done.add(ev[0])
+                            merged.extend(sorted({e for e in result if e[0] == ev[0]
+                                                  and e[1] == 'left'}, key=str))
+                        continue
+                    merged.append(ev)
+                return merged
+
+            def loose_times(result):
+                lefts = {}
+                for ev in result:
+                    if ev[1] == 'left':
+                        lefts[ev[0]] = lefts.get(ev[0], 0) + 1
+                return {when for when, count in lefts.items() if count >= 2} | {
+                    ev[0] for ev in result if ev[1] == 'abandoned'}
             mine = projection(sess.events)
             theirs = projection(rsess.events)
+            loose = loose_times(mine) | loose_times(theirs)
+            mine, theirs = coarse(mine, loose), coarse(theirs, loose)
             if mine != theirs:
                 diff = next((pair for pair in zip(mine, theirs) if pair[0] != pair[1]),
                             (len(mine), len(theirs)))
